@@ -3,6 +3,7 @@ import FastorModel.Driver.Einsum
 import FastorModel.Driver.Expr
 import FastorModel.Driver.Lazy
 import FastorModel.Driver.Config
+import FastorModel.Driver.Reduce
 /-
   `fmodel`: line-protocol driver.  Reads one case per line on stdin, prints the model's observables
   for it.  The harness prints the implementation's observables for the same case in the same format.
@@ -19,6 +20,10 @@ def step (line : String) : String :=
   | "expr" :: rest => runExpr (parseKV rest)
   | "lazy" :: rest => runLazy (parseKV rest)
   | "config" :: rest => runConfig (parseKV rest)
+  | "reduce" :: rest => runReduce (parseKV rest)
+  | "minmax" :: rest => runMinmax (parseKV rest)
+  | "pred" :: rest => runPred (parseKV rest)
+  | "detqr" :: rest => runDetQR (parseKV rest)
   | _ => "bad-op"
 
 partial def loop (h : IO.FS.Stream) (out : IO.FS.Stream) : IO Unit := do
